@@ -15,6 +15,7 @@
 
 #include <cstdint>
 #include <cstdlib>
+#include <cstring>
 
 #ifdef _MSC_VER
 #include <intrin.h>
@@ -149,12 +150,17 @@ static inline size_t popcount(const void* data, size_t size)
     size_t total = 0;
     while (begin + 7 < end)
     {
-        total += popcount(*reinterpret_cast<const std::uint64_t*>(begin));
+        // memcpy: data need not be aligned (nor an array of uint64_t)
+        std::uint64_t x;
+        std::memcpy(&x, begin, sizeof(x));
+        total += popcount(x);
         begin += 8;
     }
     if (begin + 3 < end)
     {
-        total += popcount(*reinterpret_cast<const std::uint32_t*>(begin));
+        std::uint32_t x;
+        std::memcpy(&x, begin, sizeof(x));
+        total += popcount(x);
         begin += 4;
     }
     while (begin < end)
